@@ -8,7 +8,8 @@ From MirV Require Import Mir.DocSpec Mir.CExpr C02.RowCheck C02.Table gen.Interp
   C02.GvnCheck gen.GvnFoldTable C02.GvnFacts C02.MemRows C02.GvnMemType
   C02.PeepholeDefs C02.PeepholeProofs gen.Peephole C02.PeepholeFacts
   Mir.Opcode Mir.DocSpecInt C02.X86Sem C02.X86Check gen.X86Patterns C02.X86TableFacts
-  C02.BuiltinCheck gen.X86Builtins C02.X86BuiltinFacts.
+  C02.BuiltinCheck gen.X86Builtins C02.X86BuiltinFacts
+  Base.W64 C02.AddrDefs gen.AddrTable C02.AddrLowering.
 
 (* Interpreter (mir-interp.c): for every row of the regenerated table (every value, compare, branch
    and overflow opcode) and ALL operand values on which MIR.md defines the instruction, the row's C
@@ -174,3 +175,26 @@ Theorem x86_builtin_table_total :
   forall op, In op x86_builtin_codes -> exists s, In (op, s) x86_builtin_table.
 Proof. exact x86_builtin_rows_total. Qed.
 Print Assumptions x86_builtin_table_total.
+
+(* Memory operands "with any base/index/scale/displacement" (mir.c simplify_op, shared by the interpreter and the
+   generator; the inserted instructions, their operands and the conditions they are inserted under are regenerated):
+   executed with the documented meaning of their opcodes, the instructions that replace the operand disp(base, index,
+   scale) leave base + index*scale + disp modulo 2^64 in the address register -- for EVERY scale 1..255 (not only the
+   hardware scales 1/2/4/8), all register values, all displacements, each part present or absent. *)
+Theorem simplify_mem_operand_address_sound : forall base index scale disp,
+  (1 <= scale <= 255)%Z -> (is_some base || is_some index || negb (disp =? 0)%Z = true) ->
+  exists a, lowered_addr base index scale disp simplify_addr_insns = Some a /\ u64 a = doc_addr base index scale disp.
+Proof. exact simplify_lowering_sound. Qed.
+Print Assumptions simplify_mem_operand_address_sound.
+
+(* The address combiner of the generator at -O2/-O3 (mir-gen.c update_addr_p; the guard of the base * constant step, the
+   displacement update and the scale update of the index steps are regenerated): every step that replaces the base /
+   index of base + index*scale + disp by the operands of the add / sub / mul / lsh-by-constant instruction defining it
+   leaves the address unchanged modulo 2^64 (constants of multiplications 0..255 as var_mult_const accepts them; a
+   base * constant is moved into the index slot only while the index is unscaled; a product of scales above 255 is
+   given up, never truncated to 8 bits). *)
+Theorem addr_combiner_steps_sound : forall a s a', step_premise a s ->
+  apply_step combiner_base_mult_needs_scale1 combiner_index_plus_scales_disp combiner_index_mult a s = Some a' ->
+  ai_addr a' = ai_addr a.
+Proof. exact combiner_steps_sound. Qed.
+Print Assumptions addr_combiner_steps_sound.
